@@ -1,6 +1,7 @@
 import GarbleVerif.Proofs.Encoding
 import GarbleVerif.Model.Literal
 import GarbleVerif.Proofs.LiteralSafe
+import GarbleVerif.Proofs.DecoderRoundtrip
 /-!
 # C09 — literal encoding round-trips and matches the documented bit layout
 
@@ -8,7 +9,8 @@ import GarbleVerif.Proofs.LiteralSafe
 two's complement integers; array elements, tuple fields and struct fields concatenated; enums
 as a tag followed by the zero-padded payload). For **every** type (any nesting) and every
 well-typed value the theorems below hold; `C09_accept_safe` ties the transliteration of `literal.rs`
-(`Lit.isOfType`, `Lit.asBits`) to this specification.
+(`Lit.isOfType`, `Lit.asBits`) to this specification, `C09_decoder_roundtrip` the transliteration of
+`from_unwrapped_bits` (`Ty.fromBits`).
 -/
 namespace GV
 
@@ -51,6 +53,13 @@ encoding are those of the type, struct fields have distinct names, unit variants
 theorem C09_accept_safe (d : Defs) (l : Lit) (t : Ty) (hd : t.DefsOK d) (h : l.isOfType t = true) :
     ∃ v, l.denote t = some v ∧ v.hasType t = true ∧ l.asBits d = v.encode t :=
   Lit.accept d l t hd h
+
+/-- **the decoder undoes the encoding**: `Literal::from_unwrapped_bits` (`Ty.fromBits`) accepts the encoding of every
+well-typed value and returns a literal that denotes exactly that value — for every type whose struct field names are
+distinct and whose unit variants have no fields (`DefsOK`) -/
+theorem C09_decoder_roundtrip (d : Defs) (v : Val) (t : Ty) (hd : t.DefsOK d) (h : v.hasType t = true) :
+    ∃ l, t.fromBits (v.encode t) = some l ∧ l.denote t = some v :=
+  fromBits_encode d v t hd h
 
 /-- … and therefore to exactly `size(T)` bits that decode to the value it denotes -/
 theorem C09_accept_size (d : Defs) (l : Lit) (t : Ty) (hd : t.DefsOK d) (h : l.isOfType t = true) :
